@@ -177,7 +177,9 @@ func c06Sr25519Ops() []h.DiffOp {
 			}},
 		{Name: "generate", Weight: 2,
 			Covers: []string{"GenerateMiniSecretKey", "GenerateSecretKey", "GenerateKeyPair"},
-			Gen:    func(t *rapid.T, c *h.DiffCase) { h.DiffEntropy(t, c, rapid.SampledFrom([]int{32, 64, 96, 0, 1}).Draw(t, "n"), "rng") },
+			Gen: func(t *rapid.T, c *h.DiffCase) {
+				h.DiffEntropy(t, c, rapid.SampledFrom([]int{32, 64, 96, 0, 1}).Draw(t, "n"), "rng")
+			},
 			Exec: func(a *h.DiffArgs, o *h.DiffOut) {
 				rnd := a.B()
 				msk, err := sr25519.GenerateMiniSecretKey(h.NewDiffReader(rnd))
